@@ -18,6 +18,7 @@
 //!                                     estimator: `x.log2_bounds()` = (lb, ub) must satisfy lb <= log2|x| <= ub;
 //!                                     log2|x| is recomputed here in f64 from the top 64 bits, with a tolerance
 //!                                     far below the f32 resolution; a failure prints the numbers)
+//!      `fdecode X`  -> nan | inf <+|-> | fin <man> d:<exp>   (`FloatEncoding::decode` of a primitive float)
 //!      `implset`    -> digest of the impl headers / macro invocations of the anchored source files
 //! A pair for which the library has no impl prints `ok nopair` (the model carries the same table).
 #![allow(deprecated, unreachable_patterns)]
@@ -697,7 +698,7 @@ fn path_tag(x: &Num, y: &Num) -> &'static str {
 }
 
 pub fn dispatch(op: &str, args: &[&str]) -> Option<Res> {
-    if !["numcmp", "numeq", "abscmp", "abseq", "ordcmp", "numhash", "hasheq", "log2encl", "implset"].contains(&op) {
+    if !["numcmp", "numeq", "abscmp", "abseq", "ordcmp", "numhash", "hasheq", "log2encl", "implset", "fdecode"].contains(&op) {
         return None;
     }
     Some((|| -> Res {
@@ -745,6 +746,22 @@ pub fn dispatch(op: &str, args: &[&str]) -> Option<Res> {
             }
             "log2encl" => log2encl(&p_num(arg(args, 0)?)?),
             "implset" => Ok(implset()),
+            "fdecode" => {
+                use dashu_base::FloatEncoding;
+                use std::num::FpCategory;
+                fn show<M: Into<i64>, E: Into<i64>>(r: Result<(M, E), FpCategory>, neg: bool) -> String {
+                    match r {
+                        Ok((m, e)) => format!("fin {} d:{}", f_ibig(&IBig::from(m.into())), e.into()),
+                        Err(FpCategory::Nan) => "nan".into(),
+                        Err(_) => format!("inf {}", if neg { "-" } else { "+" }),
+                    }
+                }
+                match p_num(arg(args, 0)?)? {
+                    Num::F32(f) => Ok(show(f.decode(), f.is_sign_negative())),
+                    Num::F64(f) => Ok(show(f.decode(), f.is_sign_negative())),
+                    _ => Err("bad-arg fdecode".into()),
+                }
+            }
             "hasheq" => {
                 let x = p_num(arg(args, 0)?)?;
                 let y = p_num(arg(args, 1)?)?;
